@@ -22,7 +22,7 @@ CHECKS = {
     "C01": ["C01_OneDeployed", "C01_KeyIsBody", "C01_NextRevision", "C01_Success", "C01_Prune", "C03_AtomicTarget"],
     "C02": ["C02_Success", "C02_Uninstall", "C02_UninstallListed", "C02_Foreign", "C02_Strangers", "C02_Bystanders"],
     "C03": ["C03_Error", "C03_Failed", "C03_Cleanup", "C03_AtomicUpgrade", "C03_AtomicTarget", "C03_AtomicInstall"],
-    "C06": ["C06_ReadOnly", "C06_EndSame", "C02_Foreign"],
+    "C06": ["C06_ReadOnly", "C06_EndSame", "C06_ClientOnlySilent", "C02_Foreign"],
     "C07": ["C07_Refusal", "C07_Stamped", "C07_DeleteNamed"],
     "C09": ["C09_CreateFresh", "C09_UniqueCreator", "C09_OneAtATime", "C09_HandsOff", "C09_LoserClean", "C09_Quiescent", "C01_KeyIsBody", "C01_NextRevision", "C01_OneDeployed"],
     "C12": ["C12_Order", "C12_DeleteBefore", "C12_DeletedByPolicy", "C12_PreHookGate", "C12_PostHookFails",
@@ -86,6 +86,9 @@ def kf_triggers(evs):
         ok = ended and evs[e]["ok"]
         injs = [x for x in calls if x["inj"]]
         created = [x["rev"] for x in calls if x["kind"] == "store" and x["verb"] == "create" and x["ok"]]
+        if be["op"] == "install" and fl.get("clientOnly") and fl.get("tplDry") in ("none", "false", "server"):
+            # L29: helm template --dry-run=none|false|server renders with cluster access (lookup, discovery)
+            tr.append(("KF-L29-template-with-explicit-dry-run-value-contacts-cluster", b))
         if be["op"] == "install" and not fl["dryRun"]:
             # L2i: the write that marks the new revision deployed fails and is swallowed
             if ok and calls and calls[-1]["inj"] and calls[-1]["kind"] == "store" and calls[-1]["verb"] == "update":
@@ -208,6 +211,7 @@ KF_RELEVANT = {
     "KF-L7-uninstall-skips-other-policy-values": {"C02_Uninstall"},
     "KF-L6-unstructured-two-way-merge": {"C02_Success", "C03_AtomicUpgrade"},
     "KF-L28-rollback-diffs-against-undeployed-last-revision": {"C02_Success"},
+    "KF-L29-template-with-explicit-dry-run-value-contacts-cluster": {"C06_ClientOnlySilent"},
 }
 # findings whose damage persists in the ledger: later states of the same scenario stay affected
 KF_PERSIST = {"KF-L24-replace-supersedes-running-install", "KF-L23-prune-deletes-pending-record-of-running-operation", "KF-L22-atomic-rollback-races-with-upgrade", "KF-L2-upgrade-supersede-swallowed", "KF-L2-rollback-supersede-swallowed",
@@ -246,6 +250,8 @@ def explains(kf, name, evs, b, e):
         last = pre["store"][str(max(int(k) for k in pre["store"]))]
         left = {r for r, m in last["man"].items() if m["pol"] != "keep" and r in post["cluster"]}
         return bool(left) and all(last["man"][r]["pol"] == "other" for r in left)
+    if kf == "KF-L29-template-with-explicit-dry-run-value-contacts-cluster":
+        return en.get("reqw", 0) == 0          # only reads
     if kf == "KF-L28-rollback-diffs-against-undeployed-last-revision":
         if not post["store"]:
             return False
@@ -307,6 +313,9 @@ def assign_drivers(raws, drivers, prefix, cli=0):
                     st["via"] = "cli"
                     st["flags"].pop("cancelled", None)
                     st["flags"].pop("postRender", None)
+        for st in sc["steps"]:
+            if "op" in st and st.get("via") != "cli":
+                st["flags"].pop("tplDry", None)       # a spelling of the command line only
         scs.append(sc)
     return scs
 
